@@ -83,6 +83,8 @@ func Build(s Setup) (*proto.Session, *proto.Material, error) {
 	ids := fix.IDs("letters", s.N, 0)
 	sid := []byte(fmt.Sprintf("advrun-%d", s.Seed))
 	switch s.Proto {
+	case proto.XOR:
+		return &proto.Session{Proto: s.Proto, SessionID: sid, IDs: fix.SortedIDs(ids)}, nil, nil
 	case proto.CMPKeygen, proto.FrostKeygen, proto.FrostKeygenTap:
 		return &proto.Session{Proto: s.Proto, SessionID: sid, IDs: fix.SortedIDs(ids), T: s.T}, nil, nil
 	case proto.DoernerKeygen:
